@@ -148,7 +148,7 @@ fn handshake_decoder_is_total_and_accepts_only_signed_messages() {
         let all: [&'static Algorithm; 3] = [&AES_128_GCM, &AES_256_GCM, &CHACHA20_POLY1305];
         let orders: [[usize; 3]; 6] = [[0, 1, 2], [0, 2, 1], [1, 0, 2], [1, 2, 0], [2, 0, 1], [2, 1, 0]];
         for mask in 0..8u8 { for order in orders.iter() { for &plain in [false, true].iter() {
-            let list: SmallVec<[(&'static Algorithm, f32); 3]> = order.iter().filter(|i| mask & (1 << **i) != 0).map(|i| (all[*i], 100.0 + *i as f32)).collect();
+            let list: SmallVec<[(&'static Algorithm, f32); 3]> = order.iter().filter(|i| mask & (1 << **i) != 0).map(|i| (all[*i], 100.37 + 0.41 * *i as f32)).collect();
             let msg = InitMsg::Ping { salted_node_id_hash: [7; 20], ecdh_public_key: EcdhPublicKey::new(&X25519, smallvec![9; 32]), algorithms: Algorithms { algorithm_speeds: list.clone(), allow_unencrypted: plain } };
             let mut buf = [0u8; 400];
             let n = msg.write_to(&mut buf, &kp).unwrap();
